@@ -515,7 +515,9 @@ def build_query(case, objs, quantifier="an", **qkw):
     from krrood.entity_query_language.entity import let, entity, set_of, and_, or_, not_, contains, exists, for_all, flatten
     from krrood.entity_query_language.quantify_entity import an, the
 
-    types = {"P": P, "T": T, "int": int}
+    # case["abc"]: int variables are declared with an abstract base class of which int is a VIRTUAL subclass
+    # (numbers.Integral): let() must filter the domain with isinstance, not by the type's real subclasses (seeded C01-N)
+    types = {"P": P, "T": T, "int": __import__("numbers").Integral if case.get("abc") else int}
     vs = {}
     for name in VARS:
         if name in case["vars"]:
@@ -1073,6 +1075,8 @@ def gen_case(rng: Rng, profile: str = "c01", extras: bool = False) -> dict:
     case["sels"] = sels
     if len(sels) == 1 and rng.chance(0.15):
         case["force_setof"] = True
+    if profile in ("c01", "share") and "int" in case["vars"].values() and rng.chance(0.3):
+        case["abc"] = 1
     if profile == "share" and case["cond"] is not None:
         # make sub-conditions occur twice (the copy sometimes negated), so that sharing node objects matters:
         # c = x.a > 1; or_(and_(c, ...), and_(not_(c), ...))
